@@ -40,6 +40,7 @@ type Case struct {
 	Path    string            `json:"path"`
 	Lexical []int             `json:"lexical,omitempty"`
 	Invalid bool              `json:"invalid,omitempty"` // server: the document carries an invalid enumeration/limit and must be refused
+	Prelude []int             `json:"prelude,omitempty"` // server: indices into preludes, requests served by the same handler first
 }
 
 func toTM(t vdav.CardTM) carddav.TextMatch {
@@ -307,11 +308,25 @@ func evalServer(c Case) (vev.Outcome, error) {
 		return vev.Outcome{}, err
 	}
 	b := &vdbl.CardBackend{Principal: "/u/", HomeSet: "/u/contacts/"}
+	h := &carddav.Handler{Backend: b}
+	// earlier requests served by the same handler (after C09-s15: pooled or cached decoding state) - a refused query,
+	// an accepted one, a multiget, something unparseable - must leave nothing behind for the request under test
+	for _, k := range c.Prelude {
+		doc := preludes[k%len(preludes)]
+		praw := fmt.Sprintf("REPORT /u/contacts/earlier/ HTTP/1.1\r\nHost: dav.example\r\nDepth: 1\r\nContent-Type: text/xml\r\nContent-Length: %d\r\n\r\n%s", len(doc), doc)
+		if preq, err := http.ReadRequest(bufio.NewReader(strings.NewReader(praw))); err == nil {
+			func() {
+				defer func() { recover() }()
+				h.ServeHTTP(httptest.NewRecorder(), preq)
+			}()
+		}
+	}
+	b.Reset()
 	w := httptest.NewRecorder()
 	var pan any
 	func() {
 		defer func() { pan = recover() }()
-		(&carddav.Handler{Backend: b}).ServeHTTP(w, req)
+		h.ServeHTTP(w, req)
 	}()
 	if pan != nil {
 		return dev("server|"+c.Kind+"|panic", "panic: %v on %q", pan, body), nil
@@ -403,6 +418,14 @@ func evaluate(c Case) (vev.Outcome, error) {
 		return evalClient(c)
 	}
 	return evalServer(c)
+}
+
+var preludes = []string{
+	`<C:addressbook-query xmlns:C="urn:ietf:params:xml:ns:carddav" xmlns:D="DAV:"><D:prop><D:getetag/><C:address-data><C:prop name="EARLIER"/></C:address-data></D:prop><C:filter test="allof"><C:prop-filter name="EARLIER" test="allof"><C:text-match match-type="bogus" negate-condition="yes">earlier</C:text-match><C:param-filter name="EARLIER-P"><C:is-not-defined/></C:param-filter></C:prop-filter></C:filter><C:limit><C:nresults>77</C:nresults></C:limit></C:addressbook-query>`,
+	`<C:addressbook-query xmlns:C="urn:ietf:params:xml:ns:carddav" xmlns:D="DAV:"><D:prop><C:address-data><C:prop name="EARLIER"/></C:address-data></D:prop><C:filter test="allof"><C:prop-filter name="EARLIER"><C:text-match match-type="starts-with" negate-condition="yes">earlier</C:text-match></C:prop-filter></C:filter><C:limit><C:nresults>78</C:nresults></C:limit></C:addressbook-query>`,
+	`<C:addressbook-multiget xmlns:C="urn:ietf:params:xml:ns:carddav" xmlns:D="DAV:"><D:prop><C:address-data><C:prop name="EARLIER"/></C:address-data></D:prop><D:href>/u/contacts/earlier/1.vcf</D:href><D:href>/u/contacts/earlier/2.vcf</D:href></C:addressbook-multiget>`,
+	`<C:addressbook-query xmlns:C="urn:ietf:params:xml:ns:carddav"><C:filter test="nonsense"><C:prop-filter name="EARLIER"/></C:filter>`,
+	`<C:addressbook-query xmlns:C="urn:ietf:params:xml:ns:carddav" xmlns:D="DAV:"><D:allprop/><C:filter><C:prop-filter name="EARLIER"><C:is-not-defined/></C:prop-filter></C:filter><C:limit><C:nresults>-5</C:nresults></C:limit></C:addressbook-query>`,
 }
 
 // ---------------------------------------------------------------------------
@@ -570,6 +593,9 @@ func TestEnumerations(t *testing.T) {
 					if c.Invalid {
 						cls = "enum/invalid"
 					}
+					if idx%3 == 0 {
+						c.Prelude = []int{idx % 5, (idx / 5) % 5}
+					}
 					run(t, nil, c, cls)
 				}
 			}
@@ -626,6 +652,9 @@ func TestWireToBackend(t *testing.T) {
 	vev.Rapid(t, rec, 1, vev.N(3000, 150000), func(rt *rapid.T) {
 		c := Case{Dir: "server", Path: genPath(rt)}
 		c.Lexical = rapid.SliceOfN(rapid.IntRange(0, 11), 40, 40).Draw(rt, "lexical")
+		if rapid.Bool().Draw(rt, "prelude?") {
+			c.Prelude = rapid.SliceOfN(rapid.IntRange(0, len(preludes)-1), 1, 3).Draw(rt, "prelude")
+		}
 		others := []string{"getetag", "getlastmodified", "getcontenttype"}
 		if rapid.IntRange(0, 3).Draw(rt, "kind") == 0 {
 			c.Kind = "multiget"
